@@ -4,6 +4,7 @@ import (
 	"errors"
 	"fmt"
 	"os"
+	"path/filepath"
 	"regexp"
 	"strconv"
 	"strings"
@@ -221,9 +222,152 @@ func c07Expr(o *hx.Out, q string, stream string) {
 	fo, po := fp.Text()[:2] == "(0", pp.Text()[:2] == "(0"
 	o.Count(fmt.Sprintf("%s filter_ok=%v proj_ok=%v", stream, fo, po))
 	o.Count(fmt.Sprintf("exprlen=%d", min(len(q)/4*4, 40)))
-	o.Add(c, c07Input{Kind: "expr", Expr: strconv.QuoteToASCII(q), ExprX: fmt.Sprintf("%x", q)}, "e"+q, fo || po)
+	o.Add(c, c07Input{Kind: "expr", Expr: strconv.QuoteToASCII(q), ExprX: fmt.Sprintf("%x", q)}, "e"+q, fo || po, c07EmptyKeyTags(q, true, true)...)
 	c07StopIfHung(o)
 }
+
+
+// c07TagEmptyKey marks the inputs on which the known finding
+// C07_empty_key_refused applies: an expression that uses the empty string as a
+// key (written "" - there is no other way to write it).
+const c07TagEmptyKey = "C07_empty_key"
+
+func c07FilterHasEmptyKey(f parse.Filter) bool {
+	switch f := f.(type) {
+	case *parse.FilterMatch:
+		return f.Key == ""
+	case *parse.FilterOp:
+		for _, e := range f.Exprs {
+			if c07FilterHasEmptyKey(e) {
+				return true
+			}
+		}
+	}
+	return false
+}
+
+// c07EmptyKeyTags decides from the text alone whether it uses the empty key:
+// the text is read by the syntax layer (ParseFilter / ParseProjection: no
+// semantic check happens there) and the keys of what it wrote are inspected.
+// A text the syntax layer refuses uses no key at all.
+func c07EmptyKeyTags(q string, asFilter, asProj bool) []string {
+	hit := false
+	c07Guard(func() hx.Sx {
+		if asFilter {
+			if f, err := parse.ParseFilter(q); err == nil && c07FilterHasEmptyKey(f) {
+				hit = true
+			}
+		}
+		if asProj {
+			if fs, err := parse.ParseProjection(q); err == nil {
+				for _, f := range fs {
+					if f.Key == "" {
+						hit = true
+					}
+				}
+			}
+		}
+		return hx.L()
+	})
+	if hit {
+		return []string{c07TagEmptyKey}
+	}
+	return nil
+}
+
+func c07TreeHasEmptyKey(n *c07N) bool {
+	if n == nil {
+		return false
+	}
+	if (n.Op == 0 || n.Op == 4) && n.Key == "" {
+		return true
+	}
+	for _, s := range n.Subs {
+		if c07TreeHasEmptyKey(s) {
+			return true
+		}
+	}
+	return false
+}
+
+// c07Doc is the production
+//
+//	bareWord = [^F][^R]*
+//
+// of the package documentation benchproc/syntax of the tree under test: the
+// characters the two classes name, and whether they name white space (\s).
+// "The documented special characters" of the property are read from here, not
+// from the tokenizer.
+type c07Doc struct {
+	First, Rest     []rune
+	FirstSp, RestSp bool
+}
+
+func (d c07Doc) sx() hx.Sx {
+	l := func(rs []rune) hx.Sx {
+		var out []hx.Sx
+		for _, r := range rs {
+			out = append(out, hx.I(int(r)))
+		}
+		return hx.List(out)
+	}
+	return hx.L(l(d.First), hx.Bool(d.FirstSp), l(d.Rest), hx.Bool(d.RestSp))
+}
+
+var c07DocRe = regexp.MustCompile(`(?m)^//\s*bareWord\s*=\s*\[\^((?:[^\]\\]|\\.)+)\]\[\^((?:[^\]\\]|\\.)+)\]\*\s*$`)
+
+func c07DocClass(body string) (rs []rune, sp bool, err error) {
+	esc := false
+	for _, r := range body {
+		switch {
+		case esc && r == 's':
+			sp = true
+		case esc && r == 't':
+			rs = append(rs, '\t')
+		case esc && r == 'n':
+			rs = append(rs, '\n')
+		case esc && r == 'r':
+			rs = append(rs, '\r')
+		case esc && (r == '\\' || r == ']' || r == '[' || r == '^' || r == '-' || r == '"'):
+			rs = append(rs, r)
+		case esc:
+			return nil, false, fmt.Errorf("escape \\%c in a character class of bareWord not understood", r)
+		case r == '\\':
+			esc = true
+			continue
+		default:
+			rs = append(rs, r)
+		}
+		esc = false
+	}
+	return rs, sp, nil
+}
+
+func c07ReadDoc() (c07Doc, error) {
+	root := os.Getenv("VERIF_REPO")
+	if root == "" {
+		root = "/repo"
+	}
+	path := filepath.Join(root, "benchproc", "syntax", "doc.go")
+	src, err := os.ReadFile(path)
+	if err != nil {
+		return c07Doc{}, err
+	}
+	ms := c07DocRe.FindAllSubmatch(src, -1)
+	if len(ms) != 1 {
+		return c07Doc{}, fmt.Errorf("%s: expected exactly one production bareWord = [^..][^..]*, found %d", path, len(ms))
+	}
+	var d c07Doc
+	if d.First, d.FirstSp, err = c07DocClass(string(ms[0][1])); err != nil {
+		return c07Doc{}, err
+	}
+	if d.Rest, d.RestSp, err = c07DocClass(string(ms[0][2])); err != nil {
+		return c07Doc{}, err
+	}
+	return d, nil
+}
+
+var c07TheDoc c07Doc
 
 // canonical quoting of the theorems: escape ", \ and every byte outside 0x20..0x7e as \xHH
 func c07Canon(s string) string {
@@ -298,7 +442,11 @@ func c07Quote(o *hx.Out, k, v string) {
 		c07ParseFilter(ck+":"+cv), c07ParseProjection(ck), c07ParseFilter(gk+":"+gv), c07ParseProjection(gk),
 		hx.S(name), hx.List(cfgT), nf, hx.I(mall), np, hx.S(got))
 	o.Count(fmt.Sprintf("quote keylen=%d vallen=%d", len(k), len(v)))
-	o.Add(c, c07Input{Kind: "quote", Key: fmt.Sprintf("%x", k), Value: fmt.Sprintf("%x", v)}, "q"+k+"\x00"+v, len(k)+len(v) > 0)
+	var tags []string
+	if k == "" {
+		tags = []string{c07TagEmptyKey}
+	}
+	o.Add(c, c07Input{Kind: "quote", Key: fmt.Sprintf("%x", k), Value: fmt.Sprintf("%x", v)}, "q"+k+"\x00"+v, len(k)+len(v) > 0, tags...)
 	c07StopIfHung(o)
 }
 
@@ -320,7 +468,7 @@ func c07QList(o *hx.Out, k, v, v2 string) {
 func c07Bare(o *hx.Out, w, v string) {
 	q := w + ":" + v
 	fo := c07ParseFilter(q)
-	c := hx.L(hx.I(4), hx.S(w), hx.S(v), c07Oracle(q), fo, c07ParseProjection(w), c07ParseProjection("k@("+w+" "+v+")"))
+	c := hx.L(hx.I(4), hx.S(w), hx.S(v), c07Oracle(q), fo, c07ParseProjection(w), c07ParseProjection("k@("+w+" "+v+")"), c07TheDoc.sx())
 	ok := fo.Text()[:2] == "(0"
 	o.Count(fmt.Sprintf("bare filter_ok=%v", ok))
 	o.Add(c, c07Input{Kind: "bare", Key: fmt.Sprintf("%x", w), Value: fmt.Sprintf("%x", v)}, "b"+w+"\x00"+v, ok)
@@ -335,7 +483,9 @@ var c07Words = []string{"AND", "OR", "and", "ANDx", "or", "xOR", "AND OR", "-AND
 // characters that are special only at the start, and the specials
 var c07BareSyms = []string{"a", "b", "7", ".", "=", "_", "à", "Å", "ą", "入", "Ġ", "é", "\u0085", "\u00a0", "\u2003",
 	"\x85", "\xa0", "\xff", "\xc3", "\xe5\x85", "-", "*", "/", "\"", "\\", "AND", "OR", "and", "ANDx", "x",
-	" ", "(", ")", ":", "@", ",", "\t"}
+	" ", "(", ")", ":", "@", ",", "\t",
+	// more white space that the documentation's blank does not cover
+	"\n", "\r", "\v", "\f", "\u1680", "\u2028", "\u3000"}
 
 var c07Alphabet = []string{"\"", "\\", " ", "(", ")", ":", "@", ",", "-", "*", "/", "a", "\xff", "é"}
 
@@ -659,7 +809,11 @@ func c07SFilter(o *hx.Out, r *hx.Rng, n *c07N, fam string) {
 	nf := c07NewFilter(q)
 	c := hx.L(hx.I(5), hx.S(q), c07Oracle(q), want, fp, nf)
 	o.Count(fmt.Sprintf("sfilter %s parse_ok=%v new_ok=%v", fam, fp.Text()[:2] == "(0", nf.Text()[:2] == "(0"))
-	o.Add(c, c07Input{Kind: "sfilter:" + fam, Expr: strconv.QuoteToASCII(q), ExprX: fmt.Sprintf("%x", q)}, "s"+q, true)
+	var tags []string
+	if c07TreeHasEmptyKey(n) {
+		tags = []string{c07TagEmptyKey}
+	}
+	o.Add(c, c07Input{Kind: "sfilter:" + fam, Expr: strconv.QuoteToASCII(q), ExprX: fmt.Sprintf("%x", q)}, "s"+q, true, tags...)
 	c07StopIfHung(o)
 }
 
@@ -720,7 +874,13 @@ func c07SProj(o *hx.Out, r *hx.Rng, fs []c07F, seps []string, fam string) {
 	np := c07NewProjection(q)
 	c := hx.L(hx.I(6), hx.S(q), hx.List(want), pp, np)
 	o.Count(fmt.Sprintf("sproj %s parse_ok=%v new_ok=%v", fam, pp.Text()[:2] == "(0", np.Text()[:2] == "(0"))
-	o.Add(c, c07Input{Kind: "sproj:" + fam, Expr: strconv.QuoteToASCII(q), ExprX: fmt.Sprintf("%x", q)}, "p"+q, true)
+	var tags []string
+	for _, f := range fs {
+		if f.Key == "" {
+			tags = []string{c07TagEmptyKey}
+		}
+	}
+	o.Add(c, c07Input{Kind: "sproj:" + fam, Expr: strconv.QuoteToASCII(q), ExprX: fmt.Sprintf("%x", q)}, "p"+q, true, tags...)
 	c07StopIfHung(o)
 }
 
@@ -1016,7 +1176,16 @@ func c07EmptyWord(o *hx.Out, r *hx.Rng, mul int) {
 }
 
 func genC07(o *hx.Out, r *hx.Rng, tier string, replay string) error {
-	o.Rule = "(d) quoted AND/OR/and/ANDx... as key, value, in value lists, as projection key and in fixed-order lists; (e) bare words over ASCII, letters whose UTF-8 contains 0x85/0xA0, U+0085/U+00A0/U+2003, raw 0x85/0xA0/0xff and the special characters, as key, value, projection key and fixed-list member; " + "(a) the table of unicode.IsSpace over all runes; (b) quoting: every string up to a length bound over the alphabet {\" \\ space ( ) : @ , - * / a 0xff é} as key (with a random value) and as value (with a random key), quoted canonically and by strconv.Quote, parsed as filter key:value and as projection, then matched / projected on a result holding the string; (f) structured expressions: the tree is generated first and printed in the documented syntax (bare or double-quoted words, juxtaposition/AND, OR, -, *, key:(v OR v), parentheses), with the offsets of the keys: quoted keys at every position of AND sequences (bare, parenthesised, negated, as OR operand); every semantic rejection of filters (.config with a literal, a regexp, a value list of 1-3 values, an OR of 2-3 .config terms, quoted; the empty key) at every slot of 8 templates and in random trees; projections as field lists printed with every separator (blank, tab, comma) incl. an unquoted /key after white space only, with orders and fixed lists, and every semantic rejection (.unit, empty key, unknown order, .config with a list) at every position; (c) expressions: grammar-generated valid filters and projections, token soup from a piece list (escapes, regexps, operators, Unicode spaces, semantic corner keys) with byte noise; (g) the quoted EMPTY word \"\" in every syntactic position: as sort order key@\"\" (unknown order) for every kind of key at every position of 1-3 fields with every separator, as projection key, as member of fixed lists, as filter key, value, value-list member and unit (.unit:\"\"), directed and in a second token soup rich in \"\". (h) regexps holding \\Q..\\E literal sections (none, one, two or more, empty, with a slash / bracket / parenthesis / backslash inside, a stray \\E, a \\Q never closed) mixed with character classes, groups and escaped slashes, as filter value, value-list member and .unit value, closed, unterminated, with a bad follower and followed by further terms: judged by the delimiter rule of the specification and never-a-hang. non-trivial = parses as filter or projection (expressions), non-empty string (quoting)"
+	o.Rule = "(d) quoted AND/OR/and/ANDx... as key, value, in value lists, as projection key and in fixed-order lists; (e) bare words over ASCII, letters whose UTF-8 contains 0x85/0xA0, U+0085/U+00A0/U+2003, raw 0x85/0xA0/0xff and the special characters, as key, value, projection key and fixed-list member; " + "(a) the table of unicode.IsSpace over all runes; (b) quoting: every string up to a length bound over the alphabet {\" \\ space ( ) : @ , - * / a 0xff é} as key (with a random value) and as value (with a random key), quoted canonically and by strconv.Quote, parsed as filter key:value and as projection, then matched / projected on a result holding the string; (f) structured expressions: the tree is generated first and printed in the documented syntax (bare or double-quoted words, juxtaposition/AND, OR, -, *, key:(v OR v), parentheses), with the offsets of the keys: quoted keys at every position of AND sequences (bare, parenthesised, negated, as OR operand); every semantic rejection of filters (.config with a literal, a regexp, a value list of 1-3 values, an OR of 2-3 .config terms, quoted; the empty key) at every slot of 8 templates and in random trees; projections as field lists printed with every separator (blank, tab, comma) incl. an unquoted /key after white space only, with orders and fixed lists, and every semantic rejection (.unit, empty key, unknown order, .config with a list) at every position; (c) expressions: grammar-generated valid filters and projections, token soup from a piece list (escapes, regexps, operators, Unicode spaces, semantic corner keys) with byte noise; (g) the quoted EMPTY word \"\" in every syntactic position: as sort order key@\"\" (unknown order) for every kind of key at every position of 1-3 fields with every separator, as projection key, as member of fixed lists, as filter key, value, value-list member and unit (.unit:\"\"), directed and in a second token soup rich in \"\". (h) regexps holding \\Q..\\E literal sections (none, one, two or more, empty, with a slash / bracket / parenthesis / backslash inside, a stray \\E, a \\Q never closed) mixed with character classes, groups and escaped slashes, as filter value, value-list member and .unit value, closed, unterminated, with a bad follower and followed by further terms: the scan for the delimiter is compared with the model exactly (corr_ok); the property judge asks only that an unterminated regexp (no slash, or only escaped ones and no literal section) is rejected, that an accepted regexp value is the text between the opening slash and a later slash, and never-a-hang. (i) bare words are judged against the character classes of the production bareWord read from the package documentation benchproc/syntax of the tree under test; the empty key \"\" carries the tag of known finding C07_empty_key_refused. non-trivial = parses as filter or projection (expressions), non-empty string (quoting)"
+	doc, err := c07ReadDoc()
+	if err != nil {
+		// the documentation was re-worded beyond what the reader of the production understands: that alone is no
+		// violation; judge against the grammar as documented at fix 97d958b (any white space ends a bare word)
+		doc = c07Doc{First: []rune(`-*"():@,`), FirstSp: true, Rest: []rune(`():@,`), RestSp: true}
+		o.Count("documented bareWord: production not found in doc.go, using the classes of fix 97d958b (" + err.Error() + ")")
+	}
+	c07TheDoc = doc
+	o.Count(fmt.Sprintf("documented bareWord: first-class=%q white-space=%v rest-class=%q white-space=%v", string(doc.First), doc.FirstSp, string(doc.Rest), doc.RestSp))
 	// (a) IsSpace table
 	var sp []hx.Sx
 	for c := rune(0); c <= unicode.MaxRune; c++ {
@@ -1182,9 +1351,11 @@ func genC07(o *hx.Out, r *hx.Rng, tier string, replay string) error {
 // \Q..\E sections (none, one, two or more; empty; holding a slash, a bracket, a
 // parenthesis, a backslash), a stray \E, a \Q that is never closed, character
 // classes (with a slash, with "]" first), groups, escaped slashes and plain
-// text.  The evaluator judges the outcome by the specification's delimiter
-// rule (re_scan: the first slash outside [...] and (...) that no backslash
-// hides - \Q and \E are ordinary backslash pairs), and "never a hang / panic".
+// text.  The model's delimiter rule (re_scan: the first slash outside [...] and
+// (...) that no backslash hides - \Q and \E are ordinary backslash pairs) is
+// compared with the code exactly (corr_ok).  The property judge (prop_ok) asks
+// only what the statement says: an unterminated regexp is rejected, an accepted
+// regexp value is the text between its delimiters, never a hang / panic.
 
 var c07QSections = []string{`\Qa\E`, `\Qb\E`, `\Qa.b\E`, `\Q\E`, `\Q.*\E`, `\Qab\E`, `\Q+\E`, `\Q\.\E`, `\Q\\E`}
 var c07QTricky = []string{`\Q/\E`, `\Qa/b\E`, `\Q[\E`, `\Q]\E`, `\Q(\E`, `\Q)\E`, `\Q[/\E`, `\Q(/\E`, `\Q\/\E`, `\Qa\Qb\E`, `\Q \E`, `\Q:\E`, `\Q"\E`}
@@ -1251,7 +1422,7 @@ func c07ReCase(o *hx.Out, pre, s, fam string) {
 	c := hx.L(hx.I(7), hx.S(pre), hx.S(s), c07Oracle(q), fp, nf)
 	ok := fp.Text()[:2] == "(0"
 	o.Count(fmt.Sprintf("requote %s parse_ok=%v", fam, ok))
-	o.Add(c, c07Input{Kind: "requote:" + fam, Expr: strconv.QuoteToASCII(q), ExprX: fmt.Sprintf("%x", q)}, "r"+q, ok, "regexp-quote-section")
+	o.Add(c, c07Input{Kind: "requote:" + fam, Expr: strconv.QuoteToASCII(q), ExprX: fmt.Sprintf("%x", q)}, "r"+q, ok, append([]string{"regexp-quote-section"}, c07EmptyKeyTags(q, true, false)...)...)
 	c07StopIfHung(o)
 }
 
